@@ -172,10 +172,10 @@ def run(ctx):
                     K = op_const(r)
     ctx.check(K == 4, 'R14.3', 'tpkt_header:K', 'tpkt_header stores size + 4 (the 4 header bytes action, flag, size)', hdr.where(),
               'tpkt_header does not add the 4 header bytes to the payload size (found %s)' % K)
-    callers = [c for c in P.callers.get('core::tpkt::tpkt_header', [])]
-    ctx.check(len(callers) == 1 and callers[0].body.path == TPKT_WRITE, 'R14.4', 'tpkt_header:callers',
+    callers = sorted(P.caller_fns('core::tpkt::tpkt_header'))
+    ctx.check(callers == [TPKT_WRITE], 'R14.4', 'tpkt_header:callers',
               'tpkt_header is called only from tpkt::Client::write (so its size argument is bounded by that guard)', hdr.where(),
-              'tpkt_header has callers other than tpkt::Client::write: %s' % [c.body.path for c in callers])
+              'tpkt_header has callers other than tpkt::Client::write: %s' % callers)
     n_ok = 0
     for path in enum_paths(tw):
         st = run_path(tw, path)
